@@ -13,5 +13,8 @@ CONSTANTS
   MaxOps = 16
   Depth = 16
   Record = TRUE
+  ExtBond = 1
+  ExtDeleg = 14
+  PoolInit = 1
   Impl = "required"
 INVARIANT Emit
